@@ -26,3 +26,7 @@ check("C05", "exhaustive short strings x escaping configurations + Hypothesis st
       "All strings up to length 4 (5 thorough) over each configuration's metacharacter alphabet under 14 escaping configurations are rendered and decoded by the target rules; the parser, the plain round trip and all slices are compared with an independent model; to_regex and the three RegexTransformation methods are compared with a glob matcher on every subject string up to length 3 over 7+ letters; regex escaping is undone and compared; field names under 4 quoting configurations.",
       "Trusted: vf/ref/strings.py, python re; unsound backend configurations (escape character not self-escaped) are not generated.",
       "DESIGN.md section 3, C05")
+check("C09", "exhaustive permutation of generated rule sets x 4 load paths; metamorphic oracle (order independence) + reference emit/no-emit rules",
+      "For fixed and Hypothesis-generated rule sets (plain rules, correlation rules by name/id, chains to depth 3, generate on/off, dangling references) every permutation of up to 6 documents is loaded through from_yaml, from_dicts, merge and load_ruleset and converted; outcome class, emitted query multiset and per-rule results must equal those of the identity order.",
+      "Queries compared as strings of the shipped test backend; mixed generate/non-generate references not asserted.",
+      "DESIGN.md section 3, C09")
